@@ -79,6 +79,7 @@ From Coquelicot Require Import Coquelicot.
 From PV Require Import proofs.LensFacts proofs.LensModel.
 From PV Require Import gen.GenFns proofs.SourceFacts.
 From PV Require Import model.Iter proofs.SearchFacts.
+From PV Require Import gen.GenFns proofs.SourceFacts proofs.SearchFacts.
 Local Open Scope R_scope.
 
 Theorem C02_segment_integral :
@@ -175,4 +176,29 @@ Theorem C02_check_intersection_is_source :
   forall (NN : Num) (st : pstate NN), gen_check_intersection NN st = check_intersection NN st.
 Proof. exact check_intersection_is_source. Qed.
 Print Assumptions C02_check_intersection_is_source.
+
+
+Theorem S_poly_area_whole_is_source :
+  forall (NN : Num) (fsin : carrier NN -> carrier NN) (pi_ : carrier NN) (l : list (seg NN)),
+    gen_poly_area NN fsin pi_ l = poly_area NN (fsin (n2 * pi_ / nofZ (Z.of_nat (length
+    l)))%num) l.
+Proof. exact poly_area_whole_is_source. Qed.
+Print Assumptions S_poly_area_whole_is_source.
+
+Theorem S_mol_area_whole_is_source :
+  forall (NN : Num) (facos : carrier NN -> carrier NN) (pi_ : carrier NN) (l : list (disc NN)),
+    gen_mol_area NN facos pi_ l = mol_area NN facos pi_ l.
+Proof. exact mol_area_whole_is_source. Qed.
+Print Assumptions S_mol_area_whole_is_source.
+
+Theorem S_total_shapes_is_source :
+  forall (NN : Num) (st : pstate NN), Z.of_N (gen_total_shapes NN st) = total_shapes NN st.
+Proof. exact total_shapes_is_source. Qed.
+Print Assumptions S_total_shapes_is_source.
+
+Theorem S_cell_sides_are_source :
+  forall (NN : Num) (c : cell NN), gen_cell_a NN c = cell_a NN c /\ gen_cell_b NN c = cell_b NN
+    c.
+Proof. exact cell_sides_are_source. Qed.
+Print Assumptions S_cell_sides_are_source.
 
